@@ -65,6 +65,21 @@ def node_of_place(f, pl):
     if not pl["p"]:
         return ("l", f.id, pl["l"])
     projs = [p for p in pl["p"] if p != "deref"]
+    if not projs:
+        # `*r` for r: &mut usize - the node of what r was borrowed from (through reborrows), else of the reference itself
+        cur = pl["l"]
+        for _ in range(6):
+            ds_ = f.full_defs(cur)
+            if len(ds_) == 1 and ds_[0][0] == "stmt" and ds_[0][3]["k"] == "assign" and ds_[0][3]["rv"]["k"] == "ref" and not (1 <= cur <= f.arg_count):
+                tp = ds_[0][3]["rv"]["place"]
+                if not [x for x in tp["p"] if x != "deref"]:
+                    if not tp["p"]:
+                        return ("l", f.id, tp["l"])
+                    cur = tp["l"]
+                    continue
+                return node_of_place(f, tp)
+            break
+        return ("l", f.id, cur)
     if len(projs) == 1 and isinstance(projs[0], dict) and "f" in projs[0]:
         pr = projs[0]
         base_ty = f.local_ty(pl["l"])
@@ -97,7 +112,30 @@ def place_ty(f, pl):
     return ty
 
 
-def unit(run, scope_files=None):
+LAYOUT_FILES = ("src/util/bitvec_format.rs", "src/util/bitvec.rs")
+TEXT_UNITS = ("Byte", "Char")
+LAYOUT_UNITS = ("Bit", "OutByte", "AddrUnit")
+
+
+def addr_unit_params(prog):
+    """(function id, parameter index) pairs that receive an address-unit width (a field named *addr*unit* at some call site)"""
+    from rules_sym import deep
+    out = set()
+    for f in prog.real_fns():
+        for bi, t in f.calls():
+            g = prog.fn(t.get("resolved") or "")
+            if g is None:
+                continue
+            for i, a in enumerate(t["args"]):
+                if op_place(a) is None or i + 1 > g.arg_count or g.local_ty(i + 1) != "usize":
+                    continue
+                d = deep(f, a, 4)
+                if re.search(r"\.(addr(ess)?_unit)$", d):
+                    out.add((g.id, i + 1))
+    return out
+
+
+def unit(run, scope_files=None, layout=False):
     R = "UNIT"
     prog = run.prog
     uf = UF()
@@ -121,6 +159,32 @@ def unit(run, scope_files=None):
 
     def loc(f, span):
         return "%s:%d" % (span["file"], span["line"])
+
+    au_params = addr_unit_params(prog) if layout else set()
+
+    def is_addr_unit(f, op):
+        """does the operand hold an address-unit width: such a parameter of this function, or of the function a closure
+        captured it from"""
+        l_ = op_local(op)
+        if l_ is None:
+            return False
+        root_fn = f
+        o_ = f.origin_op(op)
+        while o_ and o_[0] in ("ref", "cast"):
+            o_ = o_[1]
+        if o_ and o_[0] == "param" and (f.id, o_[1]) in au_params:
+            return True
+        if f.kind == "Closure" and o_ and o_[0] == "place" and o_[1] == ("param", 1):
+            up = f.upvar_names()
+            for pr in o_[2]:
+                if isinstance(pr, dict) and "f" in pr and pr["f"] in up:
+                    par = prog.fn(f.raw.get("parent"))
+                    if par is not None:
+                        for i_ in range(1, par.arg_count + 1):
+                            if par.local_name(i_) == up[pr["f"]] and (par.id, i_) in au_params:
+                                return True
+                    break
+        return False
 
     for f in fns:
         # parameters and return
@@ -173,6 +237,8 @@ def unit(run, scope_files=None):
                 elif op in ("Lt", "Le", "Gt", "Ge", "Eq", "Ne"):
                     if ln and rn:
                         uf.union(ln, rn, "comparison at " + where)
+                elif op == "Div" and layout and f.file in LAYOUT_FILES and dst_ty == "usize" and is_addr_unit(f, r):
+                    seed(node_of_place(f, st["place"]), "AddrUnit", "bit position divided by the address unit at " + where)
             elif rv["k"] == "agg":
                 if rv["agg"] == "tuple" and not st["place"]["p"]:
                     for k, o in enumerate(rv["ops"]):
@@ -229,6 +295,13 @@ def unit(run, scope_files=None):
                     seed(dn, "Byte", "result of %s at %s" % (c.rsplit("::", 1)[-1], where))
             if c in ("std::vec::Vec::<T, A>::len", "core::slice::<impl [T]>::len") and atys and CHAR_VEC_TY.search(atys[0]) and dn:
                 seed(dn, "Char", "length of a Vec<char> at " + where)
+            if layout and f.file in LAYOUT_FILES:
+                if c in ("std::vec::Vec::<T, A>::len", "core::slice::<impl [T]>::len") and atys and re.search(r"(Vec<u8>|\[u8\])", atys[0]) and dn:
+                    seed(dn, "OutByte", "number of output bytes collected (Vec<u8>::len) at " + where)
+                if r_.endswith("BitVec::read_bit") or r_.endswith("BitVec::write_bit"):
+                    seed(opnode(f, args[1]), "Bit", "bit index given to %s at %s" % (r_.rsplit("::", 1)[-1], where))
+                if r_.endswith("BitVec::len") and dn:
+                    seed(dn, "Bit", "BitVec::len at " + where)
             if c in ("std::cmp::min", "std::cmp::max", "std::cmp::Ord::min", "std::cmp::Ord::max", "std::cmp::Ord::clamp") and dn:
                 for a in args:
                     n_ = opnode(f, a)
@@ -266,19 +339,44 @@ def unit(run, scope_files=None):
                     seed(("dc2", f.id, t["dest"]["l"], "Some", "0", "0"), "Byte", "CharIndices offset at " + where)
             # ---- local calls: link arguments and results
             tg, known = prog.call_targets(f, t)
+
+            def argnode(a):
+                """node of a usize argument, or of the usize a `&usize` / `&mut usize` argument points to"""
+                pl_ = op_place(a)
+                if pl_ is None:
+                    return None
+                ty_ = place_ty(f, pl_)
+                if ty_ == "usize":
+                    return node_of_place(f, pl_)
+                if re.match(r"^&(mut )?usize$", ty_) and not pl_["p"]:
+                    ds_ = f.full_defs(pl_["l"])
+                    if len(ds_) == 1 and ds_[0][0] == "stmt" and ds_[0][3]["k"] == "assign" and ds_[0][3]["rv"]["k"] == "ref":
+                        return node_of_place(f, ds_[0][3]["rv"]["place"])
+                    if 1 <= pl_["l"] <= f.arg_count:
+                        return ("l", f.id, pl_["l"])
+                return None
+
             for gid in tg:
                 g = prog.fn(gid)
                 if g is None:
                     continue
-                base = 1
-                for i, a in enumerate(args):
+                actuals = list(enumerate(args))
+                if g.kind == "Closure" and re.search(r"::(call|call_mut|call_once)$", c) and len(args) == 2:
+                    # closure call: the second argument is the tuple of actual arguments
+                    tl = op_local(args[1])
+                    tds = f.full_defs(tl) if tl is not None else []
+                    if len(tds) == 1 and tds[0][0] == "stmt" and tds[0][3]["rv"]["k"] == "agg" and tds[0][3]["rv"].get("agg") == "tuple":
+                        actuals = [(i + 1, o) for i, o in enumerate(tds[0][3]["rv"]["ops"])]
+                    else:
+                        actuals = []
+                for i, a in actuals:
                     if i + 1 > g.arg_count:
                         break
                     pty = g.local_ty(i + 1)
-                    if pty == "usize":
-                        n = opnode(f, a)
+                    if pty == "usize" or re.match(r"^&(mut )?usize$", pty or ""):
+                        n = argnode(a)
                         if n:
-                            uf.union(n, ("l", g.id, i + 1), "argument %s of %s at %s" % (g.local_name(i + 1), g.id.rsplit("::", 1)[-1], where))
+                            uf.union(n, ("l", g.id, i + 1), "argument %d of %s at %s" % (i + 1, g.id.rsplit("::", 1)[-1], where))
                 if g.ret == "usize" and dn:
                     uf.union(dn, ("l", g.id, 0), "result of %s at %s" % (g.id.rsplit("::", 1)[-1], where))
                 if re.match(r"^\(usize, usize\)$", g.ret) and not t["dest"]["p"]:
@@ -322,7 +420,17 @@ def unit(run, scope_files=None):
     for root, members in sorted(classes.items(), key=lambda x: str(x[0])):
         units = set(u for n, ss in members for (u, w) in ss)
         n_classes += 1
-        if len(units) > 1:
+        lay = sorted(u for u in units if u in LAYOUT_UNITS)
+        if len(lay) > 1:
+            n_conf += 1
+            a_ = [(n, w) for n, ss in members for (u, w) in ss if u == lay[0]]
+            b_ = [(n, w) for n, ss in members for (u, w) in ss if u == lay[1]]
+            chain = uf.path(a_[0][0], b_[0][0])
+            fnames = sorted(set(_fn_of(x) for x in [a_[0][0], b_[0][0]] if _fn_of(x)))
+            run.violation("UNIT5", "UNIT5|mixed|%s|%s" % ("+".join(lay), "|".join(fnames)), b_[0][1].split(" at ")[-1].split(" ")[0] if " at " in b_[0][1] else "-",
+                          "quantities of different units meet in one value: %s [%s] and %s [%s]; bit positions, output byte counts and addresses in address units differ by the factors 8 and the address unit" % (lay[0], a_[0][1], lay[1], b_[0][1]),
+                          ["%s: %s" % (lay[0], a_[0][1])] + chain + ["%s: %s" % (lay[1], b_[0][1])])
+        if len([u for u in units if u in TEXT_UNITS]) > 1:
             n_conf += 1
             bs = [(n, w) for n, ss in members for (u, w) in ss if u == "Byte"]
             cs_ = [(n, w) for n, ss in members for (u, w) in ss if u == "Char"]
@@ -366,6 +474,8 @@ def unit(run, scope_files=None):
     run.count("unit_seeded_classes", n_classes)
     run.count("unit_seeds", sum(len(v) for v in seeds.values()))
     run.count("unit_functions", len(fns))
+    if layout:
+        run.count("unit_layout_seeds", sum(1 for v in seeds.values() for (u, w) in v if u in LAYOUT_UNITS))
     if n_conf == 0:
         run.ok(R, "UNIT|no-mixed-class", "-", "no value class mixes byte offsets and character indices (%d seeded classes, %d seeds, %d functions)" % (n_classes, sum(len(v) for v in seeds.values()), len(fns)))
     return n_classes, sum(len(v) for v in seeds.values())
